@@ -176,6 +176,7 @@ class CodeGen:
     func_defeat: asm.AssemblyExpression                        = dc.field(init=False, default=stdlib.halt)
     needs_variable_defeat: bool                                = dc.field(init=False, default=False)
     needs_return_protection: bool                              = dc.field(init=False, default=False)
+    pending_array_size: int                                    = dc.field(init=False, default=0)
 
     argv_specs: list[bytes]                                    = dc.field(init=False, default_factory=list)
     entry_args: list[asm.Directive]                            = dc.field(init=False, default_factory=list)
@@ -357,7 +358,7 @@ class CodeGen:
             no_overflow = self.add_label('no_overflow')
             yield asm.Jump(no_overflow)
             yield asm.Sub(self.r1, asm.State(self.fp), asm.State(self.ap))
-            yield asm.Hgeu(asm.State(self.r1), self.checkpoints.add(self.stack.static_size))
+            yield asm.Hgeu(asm.State(self.r1), self.checkpoints.add(self.tracked_size))
             yield from self.goto(stdlib.stack_overflow)
             yield asm.Label(no_overflow)
 
@@ -746,6 +747,10 @@ class CodeGen:
                 # It should be fine not to update self.stack yet though.
                 yield asm.Metadata('Array allocation (ArrayLiteral)')
                 yield asm.Add(self.ap, asm.State(self.ap), asm.IntLiteral(static_size))
+                # ap already includes this array while its elements are
+                # evaluated, but self.stack does not until it is created
+                self.pending_array_size += static_size
+                self.checkpoints.update(self.tracked_size)
                 if el_type == DataType.BOOL:
                     foundation = self.pack_bools([
                         isinstance(el_expr, ast.BoolValue) and el_expr.data
@@ -793,6 +798,7 @@ class CodeGen:
                         offset += stride
                     assert offset == 0
 
+                self.pending_array_size -= static_size
                 access_mode = AccessMode.R if expr.type.const else AccessMode.RW
                 return self.create_new_stack_array(
                     ConcreteArrayType(expr.type.el_type, access_mode),
@@ -824,10 +830,10 @@ class CodeGen:
                     yield asm.Sub(self.r1, asm.State(self.fp), asm.State(self.ap))
 
                     # Current static array size is already included in ap
-                    cur_static_array = self.stack.static_array_size
+                    cur_static_array = self.stack.static_array_size + self.pending_array_size
                     yield asm.Sub(
                         self.r1, asm.State(self.r1),
-                        self.checkpoints.add(self.stack.static_size).map(
+                        self.checkpoints.add(self.tracked_size).map(
                             lambda max_size: max_size - cur_static_array
                         )
                     )
@@ -1200,6 +1206,12 @@ class CodeGen:
         return isinstance(expr, ast.PrimitiveValue) or isinstance(expr, ast.VariableLookup)
 
     @property
+    def tracked_size(self):
+        # Static frame and array size, including array literals whose
+        # elements are still being evaluated
+        return self.stack.static_size + self.pending_array_size
+
+    @property
     def max_signed(self):
         return (1 << (8 * self.word_size - 1)) - 1
 
@@ -1408,7 +1420,7 @@ class CodeGen:
         prev = self.stack
         cur = prev.add(offset=1)
         self.stack = cur
-        self.checkpoints.update(self.stack.static_size)
+        self.checkpoints.update(self.tracked_size)
         return ValueBubble(prev, cur, asm.IndirectByte(
             asm.Section.STATE, asm.State(self.fp),
             asm.IntLiteral(-cur.offset)
@@ -1418,7 +1430,7 @@ class CodeGen:
         prev = self.stack
         cur = prev.add(offset=self.word_size)
         self.stack = cur
-        self.checkpoints.update(self.stack.static_size)
+        self.checkpoints.update(self.tracked_size)
         return ValueBubble(prev, cur, asm.Indirect(
             asm.Section.STATE, asm.State(self.fp),
             asm.IntLiteral(-cur.offset)
@@ -1470,7 +1482,7 @@ class CodeGen:
         ref = ArrayRef(val_type, origin=origin_bubble.value, length=length_bubble.value)
         self.allocated_arrays.append(ref)
         self.stack = cur
-        if static_size: self.checkpoints.update(self.stack.static_size)
+        if static_size: self.checkpoints.update(self.tracked_size)
         assert len(self.allocated_arrays) == self.stack.array_num
         return ValueBubble(bubble.prev, cur, ref)
 
